@@ -357,6 +357,19 @@ def run(ctx):
              ("cmp", "gt", T.ident("d"), T.lit("datetime", "2020-01-01T00:00:00")),
              ("cmp", "in", T.ident("d"), T.lst(T.lit("datetime", "2020-01-01T00:00:00"), T.lit("datetime", "2020-01-01T00:00:00"))),
              ("bool", "and", ("cmp", "le", T.lit("datetime", "2020-01-01T00:00:00"), T.ident("d")), ("cmp", "eq", a_, T.I(1)))]
+    # a column whose type declares a collation (SQLAlchemy schema only): every string position
+    sc_ = T.ident("sc")
+    kk = 0
+    for t in (T.call("startswith", sc_, T.S("x")), T.call("contains", sc_, T.S("x")), T.call("endswith", sc_, T.S("x")),
+              ("cmp", "eq", sc_, T.S("x")), ("cmp", "in", sc_, T.lst(T.S("x"), T.S("y"))), ("cmp", "eq", T.call("tolower", sc_), T.S("x")),
+              ("cmp", "eq", T.call("concat", sc_, T.S("x")), T.S("y")), ("cmp", "ge", T.call("indexof", sc_, T.S("x")), T.I(1)),
+              ("un", "not", T.call("startswith", sc_, T.S("x"))), ("cmp", "eq", T.call("startswith", sc_, T.S("x")), T.lit("bool", "true")),
+              ("bool", "or", T.call("startswith", sc_, T.S("x")), T.call("startswith", s_, T.S("y"))), ("cmp", "lt", sc_, T.S("x"))):
+        for b in ("sqla-orm-select", "sqla-orm-query", "sqla-core"):
+            kk += 1
+            if ctx.mine(kk):
+                judge(ctx, t, "T", b, "collated-column")
+                ctx.cls("collated-column")
     k = 0
     for mag in range(1, len(INT_BASES)):
         for t in skels:
